@@ -51,7 +51,8 @@ CONTENT_CLASSES = [
 class Universe:
     """Model ids <-> concrete data.  files: ["f1",..]; dirs: {"d1": ["f1","f2"], ...}."""
 
-    def __init__(self, files, dirs: dict[str, list[str]], seed=0, allow_empty=True, pads=0):
+    def __init__(self, files, dirs: dict[str, list[str]], seed=0, allow_empty=True, pads=0, no_crlf=False):
+        # no_crlf: contents on which the legacy text-normalising md5 equals the plain md5 (for stores of that algorithm)
         rng = random.Random(seed)
         self.files = list(files)
         self.pads = [f"p{i + 1}" for i in range(pads)]
@@ -62,7 +63,7 @@ class Universe:
             while True:
                 k = rng.randrange(0 if allow_empty else 1, len(CONTENT_CLASSES))
                 c = CONTENT_CLASSES[k](rng, i)
-                if c not in used:
+                if c not in used and not (no_crlf and b"\r\n" in c):
                     break
             used.add(c)
             self.content[f] = c
@@ -133,6 +134,7 @@ class World:
         self.xfer_src: str | None = None
         self.xfer_dst: str | None = None
         self.state = None  # a real dvc_data State shared by the local stores, or None (StateNoop)
+        self.alg = "md5"   # the stores' hash algorithm ("md5-dos2unix": stores written by DVC 2.x)
         self.fault_kind = 0
         os.makedirs(root, exist_ok=True)
         for s in self.stores:
@@ -301,6 +303,8 @@ class World:
         cls = LocalHashFileDB if self.stores[s] == "local" else HashFileDB
         if self.state is not None and self.stores[s] == "local":
             config.setdefault("state", self.state)
+        if self.alg != "md5":
+            config.setdefault("hash_name", self.alg)
         return cls(fsobj, self.store_path(s), **config)
 
     def use_real_state(self, warm: bool):
@@ -318,7 +322,7 @@ class World:
                 for x in self.uni.oids:
                     p = self.obj_path(s, x)
                     if os.path.isfile(p):
-                        hash_file(p, fs, "md5", self.state)
+                        hash_file(p, fs, self.alg, self.state)
 
     def close(self):
         if self.state is not None:
